@@ -1445,6 +1445,8 @@ func (f *Frame) siteOperandMatches(ins ssa.Instruction, target string) bool {
 			return x.Name() == name
 		case *ssa.Parameter:
 			return x.Name() == name
+		case *ssa.FreeVar:
+			return x.Name() == name
 		default:
 			return false
 		}
